@@ -119,7 +119,7 @@ def apply_op(el, op):
         elif t == "set_label":
             el.set_label(op["v"])
         elif t == "reset_parameters":
-            el.reset_parameters(*op["args"])
+            el.reset_parameters(*op["args"], **{k: True for k in op.get("kwkeys", [])})
         elif t == "reset_parameter":
             el.reset_parameter(op["k"])
         elif t == "copy":
@@ -139,7 +139,7 @@ def run_impl(row, ops):
     for op in ops:
         if op["op"] == "reset_parameters":
             # iteration order of `set(list(args))` in this very process
-            op["order"] = list(set(list(op["args"])))
+            op["order"] = list(set(list(op["args"]) + list(op.get("kwkeys", []))))
         exc, cp = apply_op(a, op)
         trace.append({"res": res_of_exc(exc), "exc": (type(exc).__name__ if exc else None),
                       "state": snap(a), "copy": (snap(cp) if cp is not None else None),
@@ -226,7 +226,9 @@ def gen_op(row, rng, nan_ok=False):
     if r < 0.86:
         n = rng.choice([0, 0, 1, 2])
         args = [rng.choice(keys + (["nokey"] if rng.random() < 0.1 else [])) for _ in range(n)]
-        return dict(op="reset_parameters", args=args)
+        # keyword form: reset_parameters(Y=True) names the key, the value is ignored
+        kwkeys = sorted(set(rng.choice(keys) for _ in range(rng.choice([0, 0, 1, 1, 2]))))
+        return dict(op="reset_parameters", args=args, kwkeys=kwkeys)
     if r < 0.90:
         return dict(op="reset_parameter", k=rng.choice(keys + ["nokey"]))
     if r < 0.95:
@@ -252,7 +254,8 @@ def exhaustive_small(row):
     for t in ("set_values", "set_lower_limits", "set_upper_limits"):
         for x in nums:
             tmpl.append(dict(op=t, kw=[(k, x)], pos=[], dangling=False))
-    tmpl += [dict(op="reset_parameters", args=[]), dict(op="copy"), dict(op="reset_parameter", k=k),
+    tmpl += [dict(op="reset_parameters", args=[]), dict(op="reset_parameters", args=[], kwkeys=[k]),
+             dict(op="reset_parameters", args=[row["keys"][-1]], kwkeys=[k]), dict(op="copy"), dict(op="reset_parameter", k=k),
              dict(op="set_fixed", kw=[], pos=[(k, True)], dangling=False)]
     seqs = []
     for a in tmpl:
